@@ -76,6 +76,10 @@ type CoreResult struct {
 	Err string // "" or the error the program must be rejected with
 	// ErrAt: index path ("3/0/2") of the statement that is in error.
 	ErrAt string
+	// AmbiguousSeen: at some point two live connections of one class carried the same
+	// index (an index was re-used after a removal) or an indexed reference matched more
+	// than one connection; from then on "the connection with index i" is not well defined.
+	AmbiguousSeen bool
 	Root    *CoreObj
 	Edges   []*CoreEdge // live, creation order
 	removed map[string]bool
@@ -282,6 +286,11 @@ func (in *coreInterp) exec(stmts []CoreStmt, scope *CoreObj) {
 						}
 					}
 				}
+				for _, o := range in.edges {
+					if !o.dead && o.Src == e.Src && o.Dst == e.Dst && o.SA == e.SA && o.DA == e.DA && o.IRIndex == e.IRIndex {
+						in.res.AmbiguousSeen = true
+					}
+				}
 				if s.Label != nil {
 					e.Label = s.Label
 					e.LabelByShorthand = true
@@ -321,6 +330,9 @@ func (in *coreInterp) exec(stmts []CoreStmt, scope *CoreObj) {
 						hit = append(hit, e)
 					}
 				}
+			}
+			if len(hit) > 1 {
+				in.res.AmbiguousSeen = true
 			}
 			if s.Null {
 				for _, e := range hit {
